@@ -51,8 +51,13 @@ def _objective_entry(task, x):
     val = objectives.evaluate(desc, xe)
     if isinstance(ob, dict) and ob.get("user_state"):
         val = val + USER_STATE["offset"]
+    if isinstance(ob, dict) and ob.get("np_return"):
+        import numpy as _np
+        val = [_np.float64(v) for v in val] if isinstance(val, list) else _np.float64(val)
     if sim is not None and not sim.aborting:
         fp = sim.fault_plan
+        if fp is not None and getattr(fp, "slow_good", False):
+            fp.on_obj_value(sim, val, str(getattr(task.minmax, "value", task.minmax)) == "max")
         if fp is not None and getattr(fp, "scribble", False):
             _scribble(sim, x)
         sim.event("obj_ret", "")
